@@ -23,6 +23,7 @@ THEOREMS = [
     "NfcVerif.C03.t12_write_confined",
     "NfcVerif.C03.t12_commands_confined",
     "NfcVerif.C03.t2_format_confined",
+    "NfcVerif.C03.t12_long_length_counterexample",
 ]
 
 
@@ -80,11 +81,23 @@ def run(ck):
         cap = lay["free"] - (4 if lay["free"] > 256 else 2)
         n = rng.choice([0, 1, 2, 3, 254, 255, cap - 1, cap, cap, cap + 1, rng.randrange(0, max(1, cap + 1))])
         n = max(1 if f1 else 0, n)
-        if n >= 255 and not lay["hdr3"]:
-            n = rng.randrange(1, 255)
+        edge = n >= 255 and not lay["hdr3"]
         data = bytes(rng.randrange(256) for _ in range(n))
         r = Run(lay, data)
         runs.append(r)
+        if edge:
+            # edge of the quantifier: the layout is well-formed for its present (1-byte length) message, but the
+            # new message needs the 3-byte length field and byte off+2 / off+3 is reserved
+            ck.case(("write-edge", kind, r.base, data), True, "write:%s:long-length-over-reserved" % kind)
+            if r.nd is not None and r.wrote == "ok":
+                hit = [a for a in (lay["off"] + 2, lay["off"] + 3) if a in lay["skip"] and r.base[a] != r.final[a]]
+                if hit:
+                    ck.fail("t12-long-length-field-on-reserved-byte", "%s: writing %d bytes puts the 3-byte length field "
+                            "FF hi lo at %d..%d although byte %d is reserved: %02x -> %02x"
+                            % (kind, n, lay["off"] + 1, lay["off"] + 3, hit[0], r.base[hit[0]], r.final[hit[0]]), r.replay())
+                lay2 = dict(lay, skip=lay["skip"] - {lay["off"] + 2, lay["off"] + 3})
+                judge(ck, lay2, kind, r.base, r.final, r.cmds, "write of %d bytes" % n, r.replay(), "t12-write")
+            continue
         if r.nd is None:
             ck.fail("t12-wellformed-layout-not-read", "%s: %s" % (kind, r.before), r.replay())
             continue
